@@ -297,6 +297,9 @@ class SwitchShadow(object):
         for f in hit:
           f.set_actions(actions_raw)
           f.cookie = None
+        if not [f for f in hit if not f.maybe]:
+          # only entries that may not exist were described: if none exists the MODIFY acts as an ADD
+          self.table_known = False
         return
       command = cb.OFPFC_ADD
     if command == cb.OFPFC_ADD:
